@@ -192,6 +192,30 @@ pub fn build_via(path: &str, items: &[Kv], set: bool) -> Vec<u8> {
             }
             b.into_inner().unwrap()
         }
+        ("insert_with_rejects", _) => {
+            // the accepted sequence with rejected calls in between (their errors are ignored):
+            // a rejected call must leave no trace in the bytes either
+            let mut b = Builder::memory();
+            for (i, (k, v)) in items.iter().enumerate() {
+                if set {
+                    b.add(k).unwrap();
+                } else {
+                    b.insert(k, *v).unwrap();
+                }
+                if i % 2 == 0 && !set {
+                    let _ = b.insert(k, v / 2); // duplicate with a smaller value
+                    let _ = b.insert(k, v.wrapping_add(5)); // duplicate with another value
+                }
+                if i > 0 && i % 3 == 0 {
+                    let prev = &items[i - 1].0;
+                    let _ = if set { b.add(prev) } else { b.insert(prev, 1) }; // out of order
+                }
+                if !k.is_empty() && i % 4 == 1 {
+                    let _ = if set { b.add(&k[..k.len() - 1]) } else { b.insert(&k[..k.len() - 1], 0) }; // a prefix: smaller
+                }
+            }
+            b.into_inner().unwrap()
+        }
         ("front_insert", false) => {
             let mut b = fst::MapBuilder::memory();
             for (k, v) in items {
@@ -267,8 +291,8 @@ pub fn build_via(path: &str, items: &[Kv], set: bool) -> Vec<u8> {
     }
 }
 
-pub const MAP_PATHS: &[&str] = &["raw_insert", "front_insert", "extend_iter", "raw_extend_iter", "extend_stream_vec", "raw_extend_stream", "extend_stream_fst", "from_iter", "raw_from_iter"];
-pub const SET_PATHS: &[&str] = &["raw_add", "raw_insert_zero", "front_insert", "extend_iter", "extend_stream_vec", "extend_stream_fst", "extend_stream_union", "from_iter", "raw_from_iter"];
+pub const MAP_PATHS: &[&str] = &["raw_insert", "insert_with_rejects", "front_insert", "extend_iter", "raw_extend_iter", "extend_stream_vec", "raw_extend_stream", "extend_stream_fst", "from_iter", "raw_from_iter"];
+pub const SET_PATHS: &[&str] = &["raw_add", "insert_with_rejects", "raw_insert_zero", "front_insert", "extend_iter", "extend_stream_vec", "extend_stream_fst", "extend_stream_union", "from_iter", "raw_from_iter"];
 
 /// The named inputs of C15, reproducible from (name, seed) in a child process.
 pub fn c15_inputs(seed: u64, tier: &str) -> Vec<(String, Vec<Kv>, bool)> {
